@@ -17,7 +17,7 @@ def ReqInv (s : Sys) : Prop :=
       q.term = st.raft.term →
       q.index = st.raft.raftLog.lastIndex ∧ st.raft.raftLog.lastTerm = .ok q.logTerm
 
-theorem req_inv (H : Hyp2 cfg c0 h) : ∀ (n : Nat) (s : Sys), h[n]? = some s → ReqInv s := by
+theorem req_inv (H : Hyp2w cfg c0 h) : ∀ (n : Nat) (s : Sys), h[n]? = some s → ReqInv s := by
   have hall1 := (hist_all H.hist).1
   refine hist_induct h _ ?_ ?_
   · intro s h0 x st hx hs
